@@ -278,6 +278,40 @@ def check_line_unused(ctx, mu, marked, subs):
     return True
 
 
+def check_marked_forms(ctx, kind, m, rng):
+    """the empty marked set and one-element sets in every form a caller may write them: no exception; the empty set returns
+    the input mesh; every form of a one-element set gives the same mesh"""
+    cname = type(m).__name__
+    forms = [('list', []), ('tuple', ()), ('intarray', np.array([], dtype=np.int64)), ('floatarray', np.array([]))]
+    for fname, mk in forms:
+        key = f'adaptive-empty-marked-floatarray:{cname}' if fname == 'floatarray' else f'adaptive-empty-marked:{cname}'
+        data = case_data(kind, m, marked=[], form=fname, label='empty-marked')
+        ctx.count(('empty-marked', cname, fname, m.t.tolist()), nontrivial=False)
+        try:
+            r = m.refined(mk)
+        except Exception as e:
+            ctx.fail(key, f'refined({mk!r}) (empty marked set as {fname}) raised {type(e).__name__}: {e}', data)
+            continue
+        # same points, same cells in the same order (MeshTri1 may re-order the vertices inside a cell: longest edge last)
+        if not (np.array_equal(r.p, m.p) and np.array_equal(np.sort(r.t, axis=0), np.sort(m.t, axis=0))
+                and r.is_valid() == m.is_valid()):
+            ctx.fail(key, f'refined({mk!r}) (empty marked set as {fname}) is not the input mesh', data)
+    k = int(rng.integers(0, m.t.shape[1]))
+    ref = None
+    for fname, mk in [('intarray', np.array([k], dtype=np.int64)), ('list', [k]), ('tuple', (k,)), ('int32array', np.array([k], dtype=np.int32))]:
+        data = case_data(kind, m, marked=[k], form=fname, label='one-element-marked')
+        ctx.count(('one-marked', cname, fname, m.t.tolist(), k), nontrivial=False)
+        try:
+            r = m.refined(mk)
+        except Exception as e:
+            ctx.fail(f'adaptive-one-marked:{cname}', f'refined({mk!r}) raised {type(e).__name__}: {e}', data)
+            continue
+        if ref is None:
+            ref = r
+        elif not (np.array_equal(r.p, ref.p) and np.array_equal(r.t, ref.t)):
+            ctx.fail(f'adaptive-one-marked:{cname}', f'refined({mk!r}) differs from refined(np.array([{k}]))', data)
+
+
 def all_subsets(n):
     for k in range(n + 1):
         for c in itertools.combinations(range(n), k):
@@ -366,6 +400,14 @@ def run_oracle(ctx):
         nt = m.t.shape[1]
         k0 = int(rng.integers(0, nt))
         check_adaptive(ctx, kind, m, [k0, k0], {'a': [k0]}, {}, 'repeated-index')
+    # (c') the empty marked set and one-element sets in every form, for every class that refines adaptively
+    for kind in ('line', 'tri', 'tet'):
+        for _ in range(ctx.n(2, 5)):
+            g = small_mesh(kind, rng, 6, ntmin=2)
+            m1 = gm.build(kind, g['p'], g['t'], g.get('sort_t'))
+            check_marked_forms(ctx, kind, m1, rng)
+            if kind != 'line':
+                check_marked_forms(ctx, kind, gm.skfem_cls(kind, 2).from_mesh(m1), rng)
     # (d) N50: segments with unused trailing points — same intervals, same tags as for the mesh without them
     for _ in range(ctx.n(4, 12)):
         g = small_mesh('line', rng, 5, ntmin=2)
@@ -451,6 +493,12 @@ def replay(ctx, data):
     kw = {'sort_t': inp['sort_t']} if kind == 'tri' else {}
     order = inp.get('order', 1)
     P = np.array(inp['p'], dtype=np.float64)
+    if inp.get('label') in ('empty-marked', 'one-element-marked'):
+        m = gm.skfem_cls(kind, 1)(P[:, :int(np.max(inp['t'])) + 1] if order == 2 else P, np.array(inp['t'], dtype=np.int32), **kw)
+        if order == 2:
+            m = gm.skfem_cls(kind, 2).from_mesh(m)
+        check_marked_forms(ctx, kind, m, np.random.default_rng(0))
+        return
     if inp.get('label') == 'unused-trailing-points':
         mu = gm.skfem_cls('line', 1)(P, np.array(inp['t'], dtype=np.int32), validate=False)
         check_line_unused(ctx, mu, inp['marked'], inp.get('subdomain', []))
